@@ -186,4 +186,6 @@ contract(Q + 'SamplingOfAlternatives.__init__', 'C19',
          ensures={'same_table': 'self.alternatives is context.alternatives',
                   'same_id_column': 'self.id_column == context.id_column',
                   'same_partition': 'self.partition is context.partition',
-                  'same_second_partition': 'same(self.second_partition, context.second_partition)'})
+                  'same_second_partition': 'same(self.second_partition, context.second_partition)',
+                  # round 3: the CNL nests are handed over too (their deletion only made a frame obligation vanish)
+                  'same_cnl_nests': 'same(self.cnl_nests, context.cnl_nests)'})
